@@ -121,7 +121,8 @@ def run_job(args):
                     f = line.split(" ", 4)
                     R.viol.append((f[1], f[2], f[3][4:] if len(f) > 3 else "", f[4] if len(f) > 4 else "", job))
                 elif line.startswith("SAMPLE ") and len(R.samples) < 2:
-                    R.samples.append({"element_type": "copyable" if typ == "T" else "move-only", "capacity": cap,
+                    R.samples.append({"element_type": {"T": "copyable", "M": "move-only", "Q": "quaint_ptr",
+                                                       "O": "optional"}.get(typ, typ), "capacity": cap,
                                       "mode": mode, "history_and_final_reference_state": line.split(" ", 2)[2],
                                       "element_throws_enumerated_on": "last operation" if faults and mode == "exh"
                                       else ("a random operation" if faults else "none")})
